@@ -91,22 +91,22 @@ Qed.
 
 Lemma look_no_foreign rec :
   (forall st l v r, rec st l v = Ok r -> no_foreign r = true) ->
-  forall n stack target args L r, look vals dflt inherits rec n stack target args L = Ok r -> no_foreign r = true.
+  forall n stack target args A L r, look vals dflt inherits rec n stack target args A L = Ok r -> no_foreign r = true.
 Proof.
-  intros IH. induction n as [|n IHn]; intros stack target args L r H; cbn [look] in H;
+  intros IH. induction n as [|n IHn]; intros stack target args A L r H; cbn [look] in H;
     destruct (get_value_at vals L target) as [[T| |sub]|]; try discriminate.
   - destruct (on_stack L target stack); [discriminate|].
     destruct (rec ((L, target) :: stack) L T) as [T'| | | |] eqn:ET; cbn [bind] in H; try discriminate.
-    destruct (resolve_args rec stack L args) as [args'| | | |] eqn:EA; cbn [bind] in H; try discriminate.
+    destruct (resolve_args rec stack A args) as [args'| | | |] eqn:EA; cbn [bind] in H; try discriminate.
     inversion H; subst. apply populate_no_foreign; [eapply resolve_args_no_foreign; eassumption | eapply IH; exact ET].
   - destruct (str_eqb L dflt); discriminate.
-  - destruct (resolve_args rec stack L args); cbn [bind] in H; discriminate.
+  - destruct (resolve_args rec stack A args); cbn [bind] in H; discriminate.
   - destruct (on_stack L target stack); [discriminate|].
     destruct (rec ((L, target) :: stack) L T) as [T'| | | |] eqn:ET; cbn [bind] in H; try discriminate.
-    destruct (resolve_args rec stack L args) as [args'| | | |] eqn:EA; cbn [bind] in H; try discriminate.
+    destruct (resolve_args rec stack A args) as [args'| | | |] eqn:EA; cbn [bind] in H; try discriminate.
     inversion H; subst. apply populate_no_foreign; [eapply resolve_args_no_foreign; eassumption | eapply IH; exact ET].
   - destruct (str_eqb L dflt); [discriminate|]. eapply IHn; exact H.
-  - destruct (resolve_args rec stack L args); cbn [bind] in H; discriminate.
+  - destruct (resolve_args rec stack A args); cbn [bind] in H; discriminate.
 Qed.
 
 (** every foreign key is gone after resolution: reduce never meets an unresolved one *)
